@@ -265,6 +265,9 @@ func buildPhases() []phase {
 			x.batches(rounds*len(recCountBoundaries), func() job { i++; return boundaryRecordsJob(x.g, k, recCountBoundaries[(i-1)%len(recCountBoundaries)]) })
 		}})
 	}
+	// the public API: constructors, setters, Put/Add methods, getters, ToBytesPackECB, DoZip/UnZip (api.go);
+	// last, so that the seeds of the earlier phases are what they were
+	ps = append(ps, phase{"api", apiPhase})
 	return ps
 }
 
